@@ -22,49 +22,74 @@ Proof. exact range_exact. Qed.
 Print Assumptions C24_range_exact.
 
 (* 206 with exactly the requested byte slice and a matching Content-Range for a satisfiable single range
-   (GET, byte ranges enabled, file newer than If-Modified-Since); the slice lies inside the file *)
-Theorem C24_206_slice : forall size mtime compress range ims ae compressible zlen s e,
+   (GET, byte ranges enabled, file newer than If-Modified-Since); never content-coded; the slice lies inside the file *)
+Theorem C24_206_slice : forall size mtime now compress brotli zstd range ims ae compressible zlen s e,
   wf_bytes range -> wf_bytes ims -> not_newer ims mtime = false -> range <> [] -> spec_range range size = RSat s e ->
-  fs_handle size mtime true compress false range ims ae compressible zlen =
-  FsOut 206 (content_range s e size) (e - s + 1) (BSlice s (e - s + 1)) false (spec_format_http_date mtime) true
+  fs_handle size mtime now true compress brotli zstd false range ims ae compressible zlen =
+  FsOut 206 (content_range s e size) (e - s + 1) (BSlice s (e - s + 1)) [] (spec_format_http_date mtime) true
   /\ 0 <= s /\ s <= e /\ e < size.
 Proof. intros. now apply range_206. Qed.
 Print Assumptions C24_206_slice.
 
 (* 416 for an unsatisfiable range (including the zero-length suffix range) — and for a malformed one *)
-Theorem C24_416_unsatisfiable : forall size mtime compress range ims ae compressible zlen isHead,
+Theorem C24_416_unsatisfiable : forall size mtime now compress brotli zstd range ims ae compressible zlen isHead,
   wf_bytes range -> wf_bytes ims -> not_newer ims mtime = false -> range <> [] ->
   (spec_range range size = RUnsat \/ spec_range range size = RInvalid) ->
-  fo_status (fs_handle size mtime true compress isHead range ims ae compressible zlen) = 416.
+  fo_status (fs_handle size mtime now true compress brotli zstd isHead range ims ae compressible zlen) = 416.
 Proof. intros. now apply range_416. Qed.
 Print Assumptions C24_416_unsatisfiable.
 
-(* 304 exactly when the file is not newer than If-Modified-Since, to the second *)
-Theorem C24_304_iff_not_newer : forall size mtime compress range ims ae compressible zlen ranges isHead,
+(* 304 exactly when the file — the ORIGINAL file, whichever representation (identity, gzip, br, zstd) would be served
+   and whenever its compressed cache file was produced — is not newer than If-Modified-Since, to the second *)
+Theorem C24_304_iff_not_newer : forall size mtime now compress brotli zstd range ims ae compressible zlen ranges isHead,
   wf_bytes ims ->
-  (fo_status (fs_handle size mtime ranges compress isHead range ims ae compressible zlen) = 304
+  (fo_status (fs_handle size mtime now ranges compress brotli zstd isHead range ims ae compressible zlen) = 304
    <-> not_newer ims mtime = true).
 Proof. intros. now apply status_304_iff. Qed.
 Print Assumptions C24_304_iff_not_newer.
 
-(* otherwise 200 with the full content of the served variant (the file itself unless the gzip variant was chosen:
-   then its length is the codec variable zlen and Content-Encoding is set; that it decodes to the file is checked by
-   the harness with the real decoder) *)
-Theorem C24_200_full : forall size mtime compress range ims ae compressible zlen ranges,
+(* the validator sent: every 200 / 206, for every negotiated coding, GET and HEAD alike, carries
+   Last-Modified = the original file's modification time *)
+Theorem C24_last_modified_is_file_mtime : forall size mtime now compress brotli zstd range ims ae compressible zlen ranges isHead,
+  let o := fs_handle size mtime now ranges compress brotli zstd isHead range ims ae compressible zlen in
+  (fo_status o = 200 \/ fo_status o = 206) -> fo_lastModified o = spec_format_http_date mtime.
+Proof. intros size mtime now compress brotli zstd range ims ae compressible zlen ranges isHead. apply last_modified_is_file_mtime. Qed.
+Print Assumptions C24_last_modified_is_file_mtime.
+(* ... because the producer of the compressed cache file stamps it with the original's modification time *)
+Theorem C24_compressed_file_mtime : forall mtime now, compressedFileMtime now mtime = mtime.
+Proof. exact compressed_mtime. Qed.
+Print Assumptions C24_compressed_file_mtime.
+
+(* a compressed sibling found on disk: its time is the file's when it is re-created (file at least 1 s newer) or equal *)
+Theorem C24_sibling_validator : forall now orig sib, siblingStale orig sib = true \/ sib = orig ->
+  compressedVariantMtime now orig (Some sib) = orig.
+Proof. exact sibling_ok. Qed.
+Print Assumptions C24_sibling_validator.
+(* FULL statement "for every sibling" is false: a sibling NEWER than the file is served with its own time and content
+   (finding stale-compressed-sibling) *)
+Theorem C24_sibling_validator_refuted : exists now orig sib, compressedVariantMtime now orig (Some sib) <> orig.
+Proof. exact sibling_refuted. Qed.
+Print Assumptions C24_sibling_validator_refuted.
+
+(* otherwise 200 with the full content of the served variant (the file itself unless a compressed variant was chosen:
+   then its length is the codec variable zlen and Content-Encoding names the negotiated coding; that it decodes to the
+   file is checked by the harness with the real decoders) *)
+Theorem C24_200_full : forall size mtime now (compress brotli zstd : bool) range ims ae compressible zlen ranges,
   wf_bytes ims -> not_newer ims mtime = false -> (range = [] \/ ranges = false) ->
-  let gz := match range with [] => compress && hasAcceptEncoding ae strGzip | _ => false end && compressible in
-  let len := if gz then zlen else size in
-  fs_handle size mtime ranges compress false range ims ae compressible zlen =
-  FsOut 200 [] len (BSlice 0 len) gz (spec_format_http_date mtime) ranges.
-Proof. intros size mtime compress range ims ae compressible zlen ranges Hi Hn Hc. exact (full_200 size mtime compress range ims ae compressible zlen Hi ranges Hn Hc). Qed.
+  let coding := match range with [] => if compress then chooseCoding brotli zstd ae else [] | _ => [] end in
+  let coded := match coding with [] => false | _ => true end && compressible in
+  let len := if coded then zlen else size in
+  fs_handle size mtime now ranges compress brotli zstd false range ims ae compressible zlen =
+  FsOut 200 [] len (BSlice 0 len) (if coded then coding else []) (spec_format_http_date mtime) ranges.
+Proof. intros size mtime now compress brotli zstd range ims ae compressible zlen ranges Hi Hn Hc. exact (full_200 size mtime now compress brotli zstd range ims ae compressible zlen Hi ranges Hn Hc). Qed.
 Print Assumptions C24_200_full.
 
 (* HEAD carries the same headers as GET and no body *)
-Theorem C24_head_same_headers_no_body : forall size mtime compress range ims ae compressible zlen ranges,
-  let g := fs_handle size mtime ranges compress false range ims ae compressible zlen in
-  let h := fs_handle size mtime ranges compress true range ims ae compressible zlen in
+Theorem C24_head_same_headers_no_body : forall size mtime now compress brotli zstd range ims ae compressible zlen ranges,
+  let g := fs_handle size mtime now ranges compress brotli zstd false range ims ae compressible zlen in
+  let h := fs_handle size mtime now ranges compress brotli zstd true range ims ae compressible zlen in
   fo_status h = fo_status g /\ fo_contentRange h = fo_contentRange g /\ fo_contentLength h = fo_contentLength g
-  /\ fo_gzip h = fo_gzip g /\ fo_lastModified h = fo_lastModified g /\ fo_acceptRanges h = fo_acceptRanges g
+  /\ fo_coding h = fo_coding g /\ fo_lastModified h = fo_lastModified g /\ fo_acceptRanges h = fo_acceptRanges g
   /\ fo_body h = BNone.
 Proof. intros. apply head_same. Qed.
 Print Assumptions C24_head_same_headers_no_body.
@@ -81,9 +106,13 @@ Example C24_ex_ranges :
   /\ spec_range (s2b "bytes=0-99999999999999999999") 100 = RInvalid.
 Proof. vm_compute. repeat split; reflexivity. Qed.
 Example C24_ex_fs :
-  fo_status (fs_handle 100 1700000000 true false false (s2b "bytes=-0") [] [] false 0) = 416
-  /\ fs_handle 100 1700000000 true false false (s2b "bytes=10-19") [] [] false 0 =
-     FsOut 206 (s2b "bytes 10-19/100") 10 (BSlice 10 10) false (s2b "Tue, 14 Nov 2023 22:13:20 GMT") true
-  /\ fo_status (fs_handle 100 1700000000 true false false (s2b "bytes=10-19") (s2b "Tue, 14 Nov 2023 22:13:20 GMT") [] false 0) = 304
-  /\ fo_status (fs_handle 100 1700000000 true false false (s2b "bytes=10-19") (s2b "Tue, 14 Nov 2023 22:13:19 GMT") [] false 0) = 206.
+  fo_status (fs_handle 100 1700000000 1800000000 true false false false false (s2b "bytes=-0") [] [] false 0) = 416
+  /\ fs_handle 100 1700000000 1800000000 true false false false false (s2b "bytes=10-19") [] [] false 0 =
+     FsOut 206 (s2b "bytes 10-19/100") 10 (BSlice 10 10) [] (s2b "Tue, 14 Nov 2023 22:13:20 GMT") true
+  /\ fo_status (fs_handle 100 1700000000 1800000000 true false false false false (s2b "bytes=10-19") (s2b "Tue, 14 Nov 2023 22:13:20 GMT") [] false 0) = 304
+  /\ fo_status (fs_handle 100 1700000000 1800000000 true false false false false (s2b "bytes=10-19") (s2b "Tue, 14 Nov 2023 22:13:19 GMT") [] false 0) = 206
+  (* a compressed variant produced much later than the file's modification: validators are the file's *)
+  /\ fs_handle 8192 1700000000 1800000000 true true true true false [] [] (s2b "zstd, br, gzip") true 321 =
+     FsOut 200 [] 321 (BSlice 0 321) (s2b "br") (s2b "Tue, 14 Nov 2023 22:13:20 GMT") true
+  /\ fo_status (fs_handle 8192 1700000000 1800000000 true true false false true [] (s2b "Tue, 14 Nov 2023 22:13:20 GMT") (s2b "gzip") true 321) = 304.
 Proof. vm_compute. repeat split; reflexivity. Qed.
